@@ -68,9 +68,20 @@ pub fn encode(name: &str, is_table: bool) -> String {
 pub fn is_valid(name: &str, is_table: bool) -> bool {
     if name.is_empty() || (!is_table && name.starts_with(TABLE_PREFIX)) {
         false
+    } else if name.chars().any(is_reserved_char) {
+        false
     } else {
         encode(name, is_table).encode_utf16().count() <= 31
     }
+}
+
+/// Returns true for characters that cannot appear in a (decoded) stream name:
+/// those that a CFB object name cannot contain, and those in the range that
+/// the encoding itself uses for packed characters (which would decode to a
+/// different name, and can collide with the encoding of another name).
+fn is_reserved_char(ch: char) -> bool {
+    matches!(ch, '/' | '\\' | ':' | '!')
+        || (0x3800..0x4840).contains(&(ch as u32))
 }
 
 // ========================================================================= //
